@@ -167,7 +167,9 @@ def solve_real(ctx, text):
 
 def show(ob):
     if ob[0] == 'v':
-        return dict(value=ob[1] if isinstance(ob[1], (int, float, bool)) else repr(ob[1]))
+        v = ob[1]
+        ok = isinstance(v, (bool, int)) or (isinstance(v, float) and v == v and abs(v) != float('inf'))
+        return dict(value=v if ok else repr(v))
     if ob[0] == 'e':
         return dict(raises=ob[1], args=ob[2])
     return dict(no_result_within_steps=ob[1])
@@ -366,5 +368,4 @@ def pinned(ctx):
 
 def teardown(ctx):
     g = ctx['guard']
-    return dict(monitors={}, anchor_lines_hit=dict(g.lines), max_steps_of_a_completed_solve={'max': g.max_ok},
-                step_budget={'events': g.budget})
+    return dict(monitors={}, anchor_lines_hit=dict(g.lines), step_budget={'events': g.budget})
